@@ -215,6 +215,11 @@ func (t *tree5) derive(p *node5, r *rng.R) *node5 {
 		} else {
 			n.l = p.l.Output(n.w)
 		}
+	case k == 10 && p.goctx != "" && r.Chance(1, 3):
+		// Ctx(nil): the path has no Go context from here on (hooks and marshalers see the background context)
+		n.step = "With.Ctx(nil)"
+		n.goctx = ""
+		n.l = p.l.With().Ctx(nil).Logger()
 	case k == 10:
 		n.step = "With.Ctx"
 		n.goctx = fmt.Sprintf("ctx-n%d", n.id)
